@@ -124,6 +124,8 @@ enum Op {
     Callback(usize),
     BorrowClone(usize),
     PtrEq(usize, usize),
+    /// hs[i].clone_from(&hs[j]) for two handles of the same kind
+    CloneFrom(usize, usize),
 }
 
 struct Model {
@@ -202,6 +204,11 @@ impl Run {
             for j in i + 1..n {
                 if self.hs[j].0.kind() == k && matches!(k, K::A | K::O | K::T | K::U1) {
                     v.push(Op::PtrEq(i, j));
+                }
+            }
+            for j in 0..n {
+                if j != i && self.hs[j].0.kind() == k && matches!(k, K::A | K::O | K::T | K::F | K::U1 | K::U2) {
+                    v.push(Op::CloneFrom(i, j));
                 }
             }
         }
@@ -416,6 +423,30 @@ impl Run {
                 self.allocs[al].owners += 1;
                 self.push(h, al);
             }
+            Op::CloneFrom(i, j) => {
+                let (ai, aj) = (self.hs[i].1, self.hs[j].1);
+                let before = DROPS.with(|d| d.borrow().len());
+                // take the destination out so that both can be borrowed
+                let (mut dst, _) = self.hs.remove(i);
+                let jj = if j > i { j - 1 } else { j };
+                match (&mut dst, &self.hs[jj].0) {
+                    (H::A(d), H::A(s)) => d.clone_from(s),
+                    (H::O(d), H::O(s)) => d.clone_from(s),
+                    (H::T(d), H::T(s)) => d.clone_from(s),
+                    (H::F(d), H::F(s)) => d.clone_from(s),
+                    (H::U1(d), H::U1(s)) => d.clone_from(s),
+                    (H::U2(d), H::U2(s)) => d.clone_from(s),
+                    _ => unreachable!(),
+                }
+                self.hs.insert(i, (dst, aj));
+                self.allocs[aj].owners += 1;
+                self.allocs[ai].owners -= 1;
+                let ran: Vec<u32> = DROPS.with(|d| d.borrow()[before..].to_vec());
+                let want: Vec<u32> = if self.allocs[ai].owners == 0 { vec![self.allocs[ai].id] } else { vec![] };
+                if ran != want {
+                    self.fail(format!("clone_from ran destructors {:?}, expected {:?}", ran, want));
+                }
+            }
             Op::PtrEq(i, j) => {
                 let same = self.hs[i].1 == self.hs[j].1;
                 let got = match (&self.hs[i].0, &self.hs[j].0) {
@@ -521,6 +552,11 @@ fn fmt(seq: &[Op]) -> String {
             }
             Op::PtrEq(i, j) => {
                 s.push_str("PtrEq");
+                d(&mut s, i);
+                d(&mut s, j)
+            }
+            Op::CloneFrom(i, j) => {
+                s.push_str("CloneFrom");
                 d(&mut s, i);
                 d(&mut s, j)
             }
